@@ -54,6 +54,13 @@ func c13Shapes(thorough bool) (all []logShape, chainAlphabet []logShape) {
 		"offset": mustTime("2023-05-06T07:08:09+02:00"),
 		"y9999":  mustTime("9999-12-31T23:59:59.999999Z"),
 	}
+	// texts at the edges of what the parser accepts: where it accepts one, the instant it yields (UTC, rounded to the
+	// microsecond) is part of the alphabet - an offset or the rounding can carry it across a year boundary
+	for n, text := range map[string]string{"y9999-offset": "9999-12-31T23:59:59-01:00", "y9999-roundup": "9999-12-31T23:59:59.9999996Z", "y0": "0000-01-01T00:00:00Z", "y0-offset": "0000-01-01T00:00:00+01:00"} {
+		if t, err := ledger.ParseTime(text); err == nil {
+			stamps[n] = t
+		}
+	}
 	// (huge amounts that are NOT round in binary or decimal matter: a lossy decoder keeps 2^64 and 10^27 intact)
 	ten30p7, _ := new(big.Int).SetString("1000000000000000000000000000007", 10)
 	amounts := map[string]*big.Int{"0": big.NewInt(0), "1": big.NewInt(1), "2p64": new(big.Int).Lsh(big.NewInt(1), 64), "2p200": new(big.Int).Lsh(big.NewInt(1), 200),
